@@ -269,6 +269,7 @@ static ASMJIT_FAVOR_SIZE Error validate(InstDB::Mode mode, const BaseInst& inst,
   RegMask combined_reg_mask = 0;
   const Mem* mem_op = nullptr;
   RegType mem_addr_type = RegType::kNone;
+  bool uses_gpb_lo_rex = false;
 
   for (i = 0; i < op_count; i++) {
     const Operand_& op = operands[i];
@@ -303,6 +304,11 @@ static ASMJIT_FAVOR_SIZE Error validate(InstDB::Mode mode, const BaseInst& inst,
 
           reg_mask = Support::bit_mask<RegMask>(reg_id);
           combined_reg_mask |= reg_mask;
+
+          // SPL|BPL|SIL|DIL can only be encoded with REX prefix.
+          if (reg_type == RegType::kGp8Lo && reg_id >= 4u) {
+            uses_gpb_lo_rex = true;
+          }
         }
         else {
           if (uint32_t(validation_flags & ValidationFlags::kEnableVirtRegs) == 0) {
@@ -635,9 +641,9 @@ static ASMJIT_FAVOR_SIZE Error validate(InstDB::Mode mode, const BaseInst& inst,
   }
   else {
     // Illegal use of a high 8-bit register with REX prefix - REX is required by the {rex} option, by registers having
-    // an id greater than 7, and by REX.W that every instruction having a 64-bit general purpose register operand and
-    // an 8-bit register operand (movsx, movzx, crc32) needs.
-    bool has_rex = inst.has_option(InstOptions::kX86_Rex) || (combined_reg_mask & 0xFFFFFF00u) != 0 || Support::test(combined_op_flags, InstDB::OpFlags::kRegGpq);
+    // an id greater than 7, by SPL|BPL|SIL|DIL, and by REX.W that every instruction having a 64-bit general purpose
+    // register operand and an 8-bit register operand (movsx, movzx, crc32) needs.
+    bool has_rex = inst.has_option(InstOptions::kX86_Rex) || (combined_reg_mask & 0xFFFFFF00u) != 0 || Support::test(combined_op_flags, InstDB::OpFlags::kRegGpq) || uses_gpb_lo_rex;
     if (ASMJIT_UNLIKELY(has_rex && Support::test(combined_op_flags, InstDB::OpFlags::kRegGpbHi))) {
       return make_error(Error::kInvalidUseOfGpbHi);
     }
